@@ -1,0 +1,63 @@
+//go:build verif
+
+// Contracts relating predicted lengths (Len) to packed lengths (C08).  Comment-only file.
+//
+// Per record type, len() is matched structurally against the schema ((*T).len#schema): header length plus one
+// length formula per field.  Here: each formula is at least (for plain content: exactly) what the field's packer
+// advances by.  The per-message statement is the sum of these facts (argued, not proved).
+
+package dns
+
+// units of presentation text (RFC 1035 section 5.1): a plain octet, \DDD or \c each stand for one wire octet
+//@ spec unitsfrom(s seq, i int) int = i >= len(s) ? 0 : 1 + unitsfrom(s, unext(s, i)) decreases len(s) - i
+//@ spec noesc(s seq) bool = forall k in 0..len(s) :: s[k] != '\\'
+
+//@ lemma units_noesc(s seq, i int) induct len(s) - i over i: (0 <= i && i <= len(s) && noesc(s)) ==> unitsfrom(s, i) == len(s) - i [C08]
+//@ lemma nswire_units(s seq, i int, lab int, w int) induct len(s) - i over i lab w: (0 <= i && i <= len(s) && IsFqdnSpec(s) && (i < len(s) ==> !escd(s, i)) && (i == len(s) ==> lab == 0)) ==> nswire(s, i, lab, w) == w + lab + unitsfrom(s, i) [C08]
+
+//@ func escapedNameLen [C08]
+//@   ensures IsFqdnSpec(s) ==> ret0 == unitsfrom(s, 0)
+//@   loop 1 invariant 0 <= i && unitsfrom(s, 0) == nameLen - len(s) + i + unitsfrom(s, i)
+//@   loop 1 invariant i <= len(s) + 1 && (i == len(s) + 1 ==> s[len(s)-1] == '\\')
+//@   loop 1 decreases len(s) + 1 - i
+//@   pure
+
+// without compression the predicted name length is the number of units plus the root octet
+//@ func domainNameLen [C08]
+//@   ensures plain: compression == nil && IsFqdnSpec(s) && !isdot(s) ==> ret0 == unitsfrom(s, 0) + 1
+//@   ensures root:  len(s) == 0 || isdot(s) ==> ret0 == 1
+//@   use units_noesc(s, 0)
+//@   assert at "return len(s) + 1" plainlen: noesc(s) && unitsfrom(s, 0) == len(s)
+
+// character-strings: one length octet plus at most one octet per character (exactly, without escapes)
+//@ func packTxtString [C08 C01]
+//@   requires 0 <= offset
+//@   ensures ok:  ret1 == nil ==> offset < ret0 && ret0 <= len(msg) && ret0 - offset <= len(s) + 1 && msg[offset] == ret0 - offset - 1 && ret0 - offset - 1 <= 255
+//@   ensures exact: ret1 == nil && noesc(s) ==> ret0 - offset == len(s) + 1
+//@   loop 1 invariant 0 <= i && old(offset) < offset && offset <= len(msg) && offset - old(offset) - 1 <= i && i <= len(s) && (noesc(s) ==> offset - old(offset) - 1 == i)
+//@   writes msg
+//@ func packString [C08 C01]
+//@   requires 0 <= off
+//@   ensures ok:  ret1 == nil ==> off < ret0 && ret0 <= len(msg) && ret0 - off <= len(s) + 1
+//@   ensures exact: ret1 == nil && noesc(s) ==> ret0 - off == len(s) + 1
+//@   ensures fail: ret1 != nil ==> ret0 == len(msg)
+//@   writes msg
+
+//@ func packStringHex [C08 C01]
+//@   requires 0 <= off
+//@   ensures ok:  ret1 == nil ==> off <= ret0 && ret0 <= len(msg) && ret0 - off == len(s) / 2
+//@   ensures fail: ret1 != nil ==> ret0 == len(msg)
+//@   writes msg
+//@ func packStringAny [C08 C01]
+//@   requires 0 <= off
+//@   ensures ok:  ret1 == nil ==> ret0 == off + len(s) && ret0 <= len(msg)
+//@   ensures fail: ret1 != nil ==> ret0 == len(msg)
+//@   writes msg
+
+//@ func compressionLenSearch [C08]
+//@   opt opaque = sep nsep escd
+//@   requires c != nil
+//@   ensures ret1 ==> 0 <= ret0 && ret0 <= len(s)
+//@   loop 1 invariant 0 <= off && (!end ==> off <= len(s))
+//@   loop 1 decreases end ? 0 : 1
+//@   loop 1 decreases len(s) - off
